@@ -377,6 +377,32 @@ def ntLoop {α : Type} (ev : Line → Option α) : List Line → List (List α) 
 def nestedTextToFlat {α : Type} (ev : Line → Option α) (lines : List Line) : CM (List Line × List (List α)) :=
   ntLoop ev lines []
 
+/-! ### from lines to one string and back (`'\n'.join(...)`, `text.splitlines()`) -/
+
+/-- the line boundaries of `str.splitlines()` (`\r\n` counts as one) -/
+def isLineBreak (c : Char) : Bool :=
+  let n := c.toNat
+  n == 10 || n == 13 || n == 11 || n == 12 || n == 28 || n == 29 || n == 30 || n == 133 || n == 8232 || n == 8233
+
+/-- `'\n'.join(lines)` -/
+def joinLines : List Line → List Char
+  | [] => []
+  | [l] => l
+  | l :: l' :: ls => l ++ '\n' :: joinLines (l' :: ls)
+
+/-- `text.splitlines()`; `cur` = the characters of the line being read, last one first -/
+def splitGo (cur : Line) : List Char → List Line
+  | [] => if cur.isEmpty then [] else [cur.reverse]
+  | '\r' :: '\n' :: rest => cur.reverse :: splitGo [] rest
+  | c :: rest => if isLineBreak c then cur.reverse :: splitGo [] rest else splitGo (c :: cur) rest
+
+def pySplitlines (text : List Char) : List Line := splitGo [] text
+
+/-- decidable: no line holds a line boundary, and the last line is not empty (Python drops the empty
+    string after a final boundary) -/
+def linesOK (ls : List Line) : Bool :=
+  ls.all (fun l => l.all (fun c => !isLineBreak c)) && (match ls.getLast? with | some l => !l.isEmpty | none => true)
+
 /-! ### decidable side conditions of the nested text theorem (C09), on the resolved tree -/
 
 mutual
